@@ -134,6 +134,19 @@ def run_chunk(chunk, tier):
                 res.transitions += 2
                 res.nontrivial += 1
                 got = _check_mass(res, s, {z: 1, 0: q}, dict(layer="E", z=z, what="mass", s=s, comp={str(z): 1, "0": q}))
+                # the documented charge= keyword on the neutral formula gives the same ion ...
+                res.evaluations += 1
+                try:
+                    viakw = float(chempy.Substance.from_formula(sym, charge=q).mass)
+                except Exception as e:
+                    viakw = "EXC %s" % type(e).__name__
+                if isinstance(got, float) and not (isinstance(viakw, float) and abs(viakw - got) <= 1e-12 * max(1.0, abs(got))):
+                    res.violation("C14|Substance.mass|charge-keyword", "Substance.from_formula(%r, charge=%d).mass = %r, the ion %r weighs %r" % (sym, q, viakw, s, got), dict(layer="E", z=z, what="chargekw", s=s, q=q), viakw, got)
+                # ... and leaves the neutral parent what it was
+                res.evaluations += 1
+                again = _mass_of(sym)
+                if isinstance(neutral, float) and again != neutral:
+                    res.violation("C14|Substance.mass|neutral-changed-after-ion", "after creating %r with charge=%d, Substance.from_formula(%r).mass = %r (was %r)" % (sym, q, sym, again, neutral), dict(layer="E", z=z, what="chargekw", s=s, q=q), again, neutral)
                 if isinstance(got, float) and isinstance(neutral, float):
                     d = got - neutral
                     exp = -q * I.ELECTRON_MASS
@@ -201,6 +214,12 @@ def run_chunk(chunk, tier):
     elif kind == "M":
         first = MIX[chunk[1]]
         masses = {k: _mass_of(k) for k in MIX}
+        # an earlier caller used its own substance factory (e.g. isotopically labelled masses) for the same keys: later
+        # calls with the default factory are not affected by it
+        try:
+            chempy.mass_fractions({k: 1 for k in MIX}, substance_factory=lambda k: chempy.Substance(k, data=dict(mass=1000.0 + len(k))))
+        except Exception:
+            pass
         for n in (1, 2, 3):
             for rest in itertools.combinations([k for k in MIX if k != first], n - 1):
                 keys = (first,) + rest
